@@ -362,8 +362,16 @@ class Executor:
                     else:
                         yield st2, "return", v
                 return
+            is_generator = not isinstance(node, ast.Lambda) and _is_generator(node)
+            if is_generator:
+                st.ghost.setdefault("__yield__", []).append([])
             for st2, kind, val in self.block(node.body, st, frame):
                 st2.env = st2.frames.pop()
+                if is_generator:
+                    items = st2.ghost["__yield__"].pop()
+                    if kind in {"next", "return"}:
+                        yield st2, "return", list(items)  # the generator, fully consumed, as the list of what it yields
+                        continue
                 if kind == "next":
                     yield st2, "return", None
                 elif kind in {"return", "raise"}:
@@ -1014,6 +1022,41 @@ class Executor:
                 fn = self.func("fmt:" + text, *(["obj"] * len(vals)), "obj")
                 yield st2, SV(fn(*[self.as_obj(x) for x in vals]), "obj")
             return
+        if isinstance(n, ast.Yield):
+            # generator body, evaluated EAGERLY: the yielded values are collected per call (see call_function). Sound for generators
+            # that are consumed completely and do not communicate with their consumer through shared state between two yields.
+            if not st.ghost.get("__yield__"):
+                raise Unsupported("yield outside a generator call that this executor interprets")
+            if n.value is None:
+                st.ghost["__yield__"][-1].append(None)
+                yield st, None
+                return
+            for st2, v in self.ev(n.value, st, frame):
+                if isinstance(v, Exc):
+                    yield st2, v
+                    continue
+                st2.ghost["__yield__"][-1].append(v)
+                yield st2, None
+            return
+        if isinstance(n, ast.YieldFrom):
+            if not st.ghost.get("__yield__"):
+                raise Unsupported("yield from outside a generator call that this executor interprets")
+            for st2, v in self.ev(n.value, st, frame):
+                if isinstance(v, Exc):
+                    yield st2, v
+                    continue
+                for item in self.concrete_seq(v, st2):
+                    st2.ghost["__yield__"][-1].append(item)
+                yield st2, None
+            return
+        if isinstance(n, ast.NamedExpr):  # (name := value): bind in the current frame, the value of the expression is the value bound
+            for st2, v in self.ev(n.value, st, frame):
+                if isinstance(v, Exc):
+                    yield st2, v
+                    continue
+                for st3 in self._assign(n.target, v, st2, frame):
+                    yield st3, v
+            return
         if isinstance(n, ast.Starred):
             raise Unsupported("starred expression outside a call")
         raise Unsupported(f"expression {type(n).__name__}")
@@ -1463,6 +1506,10 @@ class Executor:
             out.update(kwargs)  # dict(mapping, key=value, ...): keyword names are concrete strings
             yield st, out
             return
+        if getattr(f, "__name__", "") == "fromkeys" and getattr(f, "__self__", None) is builtins.dict and 1 <= len(args) <= 2 and not kwargs:
+            value = args[1] if len(args) == 2 else None
+            yield st, {_hashable(k): value for k in self.concrete_seq(args[0], st)}
+            return
         if f is builtins.zip:
             seqs = [self.concrete_seq(a, st) for a in args]
             yield st, list(zip(*seqs))
@@ -1482,6 +1529,27 @@ class Executor:
             else:
                 yield st, f(vals)
             return
+        # "template".format(a, b) with symbolic arguments and auto-numbered fields is the f-string with the same template
+        if getattr(f, "__name__", "") == "format" and isinstance(getattr(f, "__self__", None), str) and not kwargs:
+            import string as _string
+
+            tmpl = f.__self__
+            try:
+                fields = list(_string.Formatter().parse(tmpl))
+            except ValueError:
+                fields = None
+            if fields is not None and all(name in (None, "") and conv is None for _, name, _, conv in fields):
+                text = ""
+                n_holes = 0
+                for lit, name, spec, _ in fields:
+                    text += lit.replace("{", "{{").replace("}", "}}")
+                    if name is not None:
+                        text += "{" + (":" + spec if spec else "") + "}"
+                        n_holes += 1
+                if n_holes == len(args):
+                    fn_ = self.func("fmt:" + text, *(["obj"] * len(args)), "obj")
+                    yield st, SV(fn_(*[self.as_obj(a) for a in args]), "obj")
+                    return
         # a plain function of the package under verification that is neither a native nor explicitly inlined (typically a private
         # helper a refactoring extracted): interpret its body; only if that leaves the supported subset fall back to the abstraction
         import types as _types
@@ -1501,6 +1569,13 @@ class Executor:
                 return
             self.abstracted_calls.add(getattr(target, "__qualname__", "?"))
             ABSTRACTED_PACKAGE_CALLS.add(getattr(target, "__qualname__", "?"))
+        # an in-place method of a concrete container (list/dict/set) with symbolic arguments has an EFFECT: abstracting it as a pure
+        # function would silently drop the mutation. Not modelled -> outside the subset.
+        owner = getattr(f, "__self__", None)
+        if isinstance(owner, (list, dict, set, bytearray)) and getattr(f, "__name__", "") in {
+                "update", "add", "append", "extend", "insert", "remove", "discard", "pop", "popitem", "clear", "setdefault", "sort", "reverse",
+                "difference_update", "intersection_update", "symmetric_difference_update", "__setitem__", "__delitem__", "__ior__", "__iand__", "__isub__"}:
+            raise Unsupported(f"in-place {type(owner).__name__}.{f.__name__} with symbolic arguments")
         # uninterpreted function of its arguments (A-pure)
         nm = src_name or getattr(f, "__qualname__", None) or (str(f.t) if isinstance(f, SV) else "fn")
         arg_terms = [self.as_obj(a) for a in args] + [self.as_obj(v) for _, v in sorted(kwargs.items())]
@@ -1542,6 +1617,19 @@ def _smap_update(ex, st, args, kwargs):
 
 
 _SMAP_METHODS = {"get": _smap_get, "setdefault": _smap_setdefault, "update": _smap_update}
+def _is_generator(fn_node) -> bool:
+    """Does the function's own body (nested defs / lambdas excluded) contain a yield?"""
+    stack = list(fn_node.body)
+    while stack:
+        nd = stack.pop()
+        if isinstance(nd, (ast.Yield, ast.YieldFrom)):
+            return True
+        if isinstance(nd, (ast.FunctionDef, ast.AsyncFunctionDef, ast.Lambda, ast.ClassDef)):
+            continue
+        stack.extend(ast.iter_child_nodes(nd))
+    return False
+
+
 ABSTRACTED_PACKAGE_CALLS: set[str] = set()  # process-wide: package functions some executor had to abstract (read by vlib/core.py)
 
 
